@@ -269,8 +269,11 @@ PROPS = {
         'not_covered': ['races between subscribe / unsubscribe and a background accept or connect (the property\'s "or concurrently with the call")', 'that a peer whose send failed is eventually forgotten (C16)', 'quiescence itself: the contracts speak about the state when a call has returned'],
     },
     'C16': {
-        'units': ['routing', 'reqrep', 'sub', 'pubsub'],
+        'units': ['routing', 'reqrep', 'sub', 'pubsub', 'fairqueue'],
         'scope': [
+            # forgetting one peer's read half takes exactly that stream out of the queue: the other peers' streams and
+            # pending wake-ups stay (isolation)
+            ('fairqueue', r'^QueueInner::remove$', A, None),
             # a recv that reports a peer's failure has forgotten that peer completely (table entry AND queued read half:
             # so the failure cannot be reported again and no later send goes there); every other peer is untouched
             ('routing', r'^(RouterSocket|DealerSocket|PullSocket)::recv$', F, None),
@@ -295,7 +298,7 @@ PROPS = {
             '"released" is read as: no table entry and no queued read half is left for that identity - in Rust both halves are then dropped, which closes the transport; Drop itself, buffers inside asynchronous-codec and descriptor counts are not modelled',
             'GenericSocketBackend::peer_disconnected and QueueInner::remove are verified bodies (units routing / fairqueue); the fair queue also drops a stream that has ENDED (Ready(None)) by itself (unit fairqueue, reported under C14)',
         ],
-        'not_covered': ['"never spins or hangs" as a liveness statement (only its cause - the read half left in the queue - is excluded)', 'the PUB reader task (spawned; select!)', 'repeated connect / disconnect cycles over real transports, descriptor counts'],
+        'not_covered': ['"never spins or hangs" as a liveness statement (only its cause - the read half left in the queue - is excluded)', 'an ORDERLY close between frames: the fair queue drops the ended stream by itself and reports nothing, so the table entry and write half of that peer stay until a later write fails (seen by reading, DESIGN section 5; outside these contracts, not repaired)', 'the PUB reader task (spawned; select!)', 'repeated connect / disconnect cycles over real transports, descriptor counts'],
     },
     'C03': {
         'units': ['codec', 'handshake', 'pubsub', 'reqrep', 'routing'],
